@@ -57,7 +57,7 @@ def local_subpaths(cmds, tol):
 
 
 class Piece:
-    __slots__ = ("pts", "cum", "total", "full_closed", "miter", "for_in", "for_out", "seam")
+    __slots__ = ("pts", "cum", "total", "full_closed", "miter", "for_in", "for_out", "seam", "vinfo", "whole_open", "slack")
 
     def __init__(self, pts, full_closed):
         self.pts = pts
@@ -69,6 +69,9 @@ class Piece:
         self.miter = None
         self.for_in = self.for_out = True
         self.seam = None  # (point, radius): start vertex of a closed dashed subpath
+        self.vinfo = None  # per vertex: None | (turn, (mx, my)) outer bisector of a join
+        self.whole_open = False  # the piece is a whole undashed open subpath: its ends are real caps
+        self.slack = 0.0  # a widened dash piece: its ends are within this arclength of the engine's dash ends
 
 
 def _cut(pts, a, b):
@@ -101,7 +104,9 @@ def pieces_for(leaf):
         if len(pts) < 2:
             continue
         if not P["dashes"]:
-            pcs.append(Piece(pts, closed))
+            pc = Piece(pts, closed)
+            pc.whole_open = not closed
+            pcs.append(pc)
             continue
         total = _plen(pts)
         if closed and len(pts) >= 3:
@@ -147,6 +152,7 @@ def pieces_for(leaf):
                         if len(q) >= 2:
                             pc = Piece(q, False)
                             pc.for_in = False
+                            pc.slack = 2.0 * me
                             pcs.append(pc)
                 s += d
                 on = not on
@@ -156,7 +162,39 @@ def pieces_for(leaf):
     for pc in pcs:
         if pc.seam is None:
             pc.miter = _miters(pc, P, w2)
+            pc.vinfo = _vertex_info(pc)
     return pcs
+
+
+def _vertex_info(pc):
+    """Turning angle and unit outer bisector at every join vertex of the piece."""
+    pts = pc.pts
+    n = len(pts)
+    out = [None] * n
+
+    def info(a0, v, b1):
+        ax, ay = v[0] - a0[0], v[1] - a0[1]
+        bx, by = b1[0] - v[0], b1[1] - v[1]
+        la, lb = math.hypot(ax, ay), math.hypot(bx, by)
+        if la == 0 or lb == 0:
+            return None
+        ax, ay, bx, by = ax / la, ay / la, bx / lb, by / lb
+        cr = ax * by - ay * bx
+        dt_ = max(-1.0, min(1.0, ax * bx + ay * by))
+        turn = math.acos(dt_)
+        # outer side is opposite to the turning direction: outer normals are (ay, -ax) for a left turn (cr > 0)
+        sgn = 1.0 if cr > 0 else -1.0
+        mx, my = sgn * (ay + by), sgn * (-ax - bx)
+        lm = math.hypot(mx, my)
+        if lm == 0:
+            return (turn, (0.0, 0.0))
+        return (turn, (mx / lm, my / lm))
+
+    for i in range(1, n - 1):
+        out[i] = info(pts[i - 1], pts[i], pts[i + 1])
+    if pc.full_closed and n >= 3:
+        out[0] = out[n - 1] = info(pts[n - 2], pts[0], pts[1])
+    return out
 
 
 def _miters(pc, P, w2):
@@ -218,15 +256,16 @@ def query(leaf, p, delta, eps):
     w2 = P["width"] / 2.0
     r_in = w2 - dt
     r_out = w2 + dt
-    cap_ext = (math.sqrt(2.0) * w2 if P["cap"] == "square" else w2) + dt
-    maybe_out = True
+    rcap = math.sqrt(2.0) * w2 if P["cap"] == "square" else w2
+    join = P["join"]
+    possibly = False  # possibly covered by the stroke (=> not definitely outside)
     for pc in pcs:
         pts = pc.pts
         n = len(pts)
         if pc.seam is not None:
             (vx, vy), reach = pc.seam
             if (x - vx) ** 2 + (y - vy) ** 2 <= (reach + dt) ** 2:
-                maybe_out = False
+                possibly = True
             continue
         for i in range(1, n):
             x0, y0 = pts[i - 1]
@@ -235,34 +274,69 @@ def query(leaf, p, delta, eps):
             L2 = dx * dx + dy * dy
             if L2 == 0:
                 continue
+            L = math.sqrt(L2)
             t = ((x - x0) * dx + (y - y0) * dy) / L2
-            tc = 0.0 if t < 0 else (1.0 if t > 1 else t)
-            ex, ey = x - (x0 + tc * dx), y - (y0 + tc * dy)
-            dc = math.sqrt(ex * ex + ey * ey)
-            if dc <= r_out:
-                if pc.for_out:
-                    maybe_out = False
-                if pc.for_in and r_in > 0 and 0.0 < t < 1.0 and dc < r_in:
+            along = t * L
+            perp = abs((x - x0) * dy - (y - y0) * dx) / L
+            if perp <= r_out:
+                lo, hi = -dt, L + dt
+                if not pc.full_closed:
+                    # caps extend the first / last segment (square) - round caps are discs, below
+                    if i == 1 and P["cap"] == "square":
+                        lo = -w2 - dt
+                    if i == n - 1 and P["cap"] == "square":
+                        hi = L + w2 + dt
+                if pc.for_out and lo <= along <= hi:
+                    possibly = True
+                if pc.for_in and r_in > 0 and 0.0 < t < 1.0 and perp < r_in:
                     if pc.full_closed:
                         return True
-                    s = pc.cum[i - 1] + t * math.sqrt(L2)
-                    if dt <= s <= pc.total - dt:
+                    sarc = pc.cum[i - 1] + along
+                    if dt <= sarc <= pc.total - dt:
                         return True
-        if maybe_out and pc.for_out:
-            # joins reach farther than w/2 (miter), caps too (square)
-            for i in range(n):
+        # joins
+        for i in range(n):
+            vi = pc.vinfo[i]
+            if vi is None:
+                continue
+            turn, (mx, my) = vi
+            vx, vy = pts[i]
+            d2 = (x - vx) ** 2 + (y - vy) ** 2
+            if pc.for_in and join == "round" and r_in > 0 and d2 < r_in * r_in and turn > 0.3:
+                # a round join adds only the pie sector between the two outer normals (the inner side
+                # is covered by the segment rectangles, if at all): stay dt inside that sector
+                dd = math.sqrt(d2)
+                if dd > dt and (x - vx) * mx + (y - vy) * my >= dd * math.cos(max(0.0, turn / 2.0 - math.asin(dt / dd))):
+                    if pc.full_closed or dt <= pc.cum[min(i, n - 1)] <= pc.total - dt:
+                        return True
+            if not pc.for_out or possibly:
+                continue
+            if join == "round" or turn < 0.15:
+                if d2 <= r_out * r_out:
+                    possibly = True
+            elif join == "miter" and pc.miter[i] > w2 * (1 + 1e-12):
                 r = pc.miter[i] + dt
-                if r > r_out:
-                    vx, vy = pts[i]
-                    if (x - vx) ** 2 + (y - vy) ** 2 <= r * r:
-                        maybe_out = False
-                        break
-            if maybe_out and not pc.full_closed and cap_ext > r_out:
-                for vx, vy in (pts[0], pts[-1]):
-                    if (x - vx) ** 2 + (y - vy) ** 2 <= cap_ext * cap_ext:
-                        maybe_out = False
-                        break
-    return False if maybe_out else None
+                if d2 <= r * r:
+                    possibly = True
+            else:
+                # bevel (or a miter beyond the limit): the triangle up to the bevel edge
+                h = w2 * math.cos(turn / 2.0)
+                if d2 <= r_out * r_out and (x - vx) * mx + (y - vy) * my <= h + dt:
+                    possibly = True
+        # caps at the ends of an open piece
+        if not pc.full_closed:
+            for k, (vx, vy) in enumerate((pts[0], pts[-1])):
+                d2 = (x - vx) ** 2 + (y - vy) ** 2
+                if P["cap"] == "round":
+                    if pc.for_out and d2 <= (r_out + pc.slack) ** 2:
+                        possibly = True
+                    if pc.for_in and pc.whole_open and r_in > 0 and d2 < r_in * r_in:
+                        return True
+                elif P["cap"] == "square" and pc.for_out and not pc.whole_open and d2 <= (rcap + dt + pc.slack) ** 2:
+                    # the end of a dash that falls within the slack of a vertex may be capped along
+                    # either adjoining segment: nothing is claimed within the reach of a cap there
+                    possibly = True
+    return None if possibly else False
 
 
 def min_curvature_radius(cmds, tol=0.01, near=None, within=None):
@@ -318,21 +392,12 @@ def arc_cubics(seg):
     return out
 
 
-def engine_direct_contains(leaf, p_root, tolerance=0.1, simplify=True):
-    """Stroke the leaf's own geometry by calling skia-pathops directly from the harness with
-    the parameters SVG prescribes, and report whether the result covers p_root.
-    Used only to attribute a deviation from the ideal stroke to the engine."""
+def engine_path(cmds):
+    """A skia-pathops path built from reference-interpreted commands (arcs as own cubics)."""
     import pathops
 
-    if leaf.inv is None or leaf.cmds is None:
-        return None
-    P = leaf.params
-    caps = {"butt": pathops.LineCap.BUTT_CAP, "round": pathops.LineCap.ROUND_CAP, "square": pathops.LineCap.SQUARE_CAP}
-    joins = {"miter": pathops.LineJoin.MITER_JOIN, "round": pathops.LineJoin.ROUND_JOIN, "bevel": pathops.LineJoin.BEVEL_JOIN}
-    if P["cap"] not in caps or P["join"] not in joins:
-        return None
     path = pathops.Path()
-    for sp in PG.interpret(leaf.cmds):
+    for sp in PG.interpret(cmds):
         path.moveTo(*sp.start)
         for sg in sp.segs:
             if sg[0] == "L":
@@ -346,6 +411,23 @@ def engine_direct_contains(leaf, p_root, tolerance=0.1, simplify=True):
                     path.cubicTo(*c1, *c2, *e)
         if sp.closed:
             path.close()
+    return path
+
+
+def engine_direct_contains(leaf, p_root, tolerance=0.1, simplify=True):
+    """Stroke the leaf's own geometry by calling skia-pathops directly from the harness with
+    the parameters SVG prescribes, and report whether the result covers p_root.
+    Used only to attribute a deviation from the ideal stroke to the engine."""
+    import pathops
+
+    if leaf.inv is None or leaf.cmds is None:
+        return None
+    P = leaf.params
+    caps = {"butt": pathops.LineCap.BUTT_CAP, "round": pathops.LineCap.ROUND_CAP, "square": pathops.LineCap.SQUARE_CAP}
+    joins = {"miter": pathops.LineJoin.MITER_JOIN, "round": pathops.LineJoin.ROUND_JOIN, "bevel": pathops.LineJoin.BEVEL_JOIN}
+    if P["cap"] not in caps or P["join"] not in joins:
+        return None
+    path = engine_path(leaf.cmds)
     path.stroke(P["width"], caps[P["cap"]], joins[P["join"]], P["miterlimit"], list(P["dashes"]), P["offset"])
     path.convertConicsToQuads(tolerance)
     if simplify:
